@@ -45,20 +45,26 @@ using namespace det;
 
 static std::vector<std::string> g_argv;
 
-struct CaseSpec { uint64_t scenSeed = 0, noiseSeed = 0, scrSeed = 0; long cyc = 0; ScenKnobs kn; };
+struct CaseSpec { uint64_t scenSeed = 0, noiseSeed = 0, scrSeed = 0; long cyc = 0; ScenKnobs kn; bool geod = true; int forceInteg = -1; };
 static CaseSpec makeCase(const Args& a, long idx, Rng& r) {
     CaseSpec cs;
     cs.scenSeed = r.next(); cs.noiseSeed = r.next(); cs.scrSeed = r.next();
     cs.cyc = idx + (long)(a.seed % 9973);
     bool thorough = a.tier == "thorough";
-    cs.kn.maxBodies = (int)a.getInt("maxbodies", thorough ? 6 : 5);
-    cs.kn.maxStates = (int)a.getInt("maxstates", thorough ? 60 : 36);
-    cs.kn.budget = a.getInt("budget", thorough ? 12000 : 6000);
+    cs.kn.maxBodies = (int)a.getInt("maxbodies", thorough ? 6 : 4);
+    cs.kn.maxStates = (int)a.getInt("maxstates", thorough ? 48 : 24);
+    cs.kn.budget = a.getInt("budget", thorough ? 8000 : 3000);
+    cs.geod = a.getInt("geodesics", 1) != 0;      // investigation aid: 0 replaces the geodesic activity
     cs.kn.cableSurfaceWithHandlers = a.getInt("cable-surface-with-handlers", 0) != 0;
     if (a.getInt("combo", -1) >= 0) cs.cyc = cs.cyc - cs.cyc % N_FEAT_COMBOS + a.getInt("combo", 0);   // investigation aid
+    // investigation aids: replay a scenario named in a witness (e.g. one run by the noise) as the case's own scenario
+    if (!a.get("scen-seed").empty()) cs.scenSeed = strtoull(a.get("scen-seed").c_str(), 0, 10);
+    if (!a.get("scen-cyc").empty()) cs.cyc = a.getInt("scen-cyc", 0);
+    cs.forceInteg = (int)a.getInt("scen-integ", -1);
+    g_dumpStep = a.getInt("dumpstep", -1);
     return cs;
 }
-static std::unique_ptr<Scen> buildScen(const CaseSpec& cs) { std::unique_ptr<Scen> sc(new Scen()); sc->build(cs.scenSeed, cs.cyc, cs.kn); return sc; }
+static std::unique_ptr<Scen> buildScen(const CaseSpec& cs) { std::unique_ptr<Scen> sc(new Scen()); sc->build(cs.scenSeed, cs.cyc, cs.kn, cs.forceInteg); return sc; }
 
 // ------------------------------------------------------------------------------------------------ fresh process
 static void emitTraj(const Traj& t) {
@@ -107,8 +113,11 @@ static bool compareTraj(Ctx& c, const std::string& sched, const Scen& sc, const 
     std::string what; long k = firstDiff(ref, x, what);
     if (k < 0) { c.require("mismatch:" + sched, true, nullptr); return true; }
     std::string first = what.substr(0, what.find(';'));
-    std::string key = "mismatch:" + sched + ":" + ikName(sc.io.kind) + ":" + first;
-    Json w = Json::obj().set("schedule", sched).set("role", role).set("first_differing_step", k).set("differs_in", what).set("steps_ref", (long)ref.steps.size()).set("steps_this", (long)x.steps.size())
+    // key = <what differs first> : <schedule>; the integrator is part of the key only when the integrator's own
+    // decisions (time reached, status, step sizes, statistics) are the first thing that differs
+    const bool integSpecific = first == COMP_NAMES[0] || first == COMP_NAMES[1] || first == COMP_NAMES[5];
+    std::string key = "mismatch:" + first + ":" + sched + (integSpecific ? std::string(":") + ikName(sc.io.kind) : std::string());
+    Json w = Json::obj().set("schedule", sched).set("integrator", ikName(sc.io.kind)).set("role", role).set("first_differing_step", k).set("differs_in", what).set("steps_ref", (long)ref.steps.size()).set("steps_this", (long)x.steps.size())
         .set("outcome_ref", ref.outcome).set("outcome_this", x.outcome).set("scenario", sc.toJson());
     if (k < (long)ref.steps.size()) w.set("t_ref", ref.steps[k].t).set("status_ref", statusName(ref.steps[k].status));
     if (k < (long)x.steps.size()) w.set("t_this", x.steps[k].t).set("status_this", statusName(x.steps[k].status));
@@ -128,7 +137,20 @@ static void checkCase(Ctx& c, long idx, Rng& r) {
     CaseSpec cs = makeCase(a, idx, r);
     const bool useChild = a.getInt("child", 1) != 0;
     const std::string only = a.get("sched", "");           // investigation aid: run one schedule only
-    auto want = [&](const char* s) { return only.empty() || only == s; };
+    // solo, twice and interleaved-noise run in every case; the child process in every 3rd case and two of the four
+    // remaining schedules per case (all of them with --allsched 1 or in the thorough tier): cost bound
+    const bool all = a.getInt("allsched", a.tier == "thorough" ? 1 : 0) != 0;
+    auto rot = [&](int k) { return all || (idx % 4) == k || ((idx + 2) % 4) == k; };
+    auto want = [&](const char* s) {
+        if (!only.empty()) return only == s;
+        std::string n = s;
+        if (n == "fresh-process") return all || idx % 3 == 0;
+        if (n == "state-copy") return rot(0);
+        if (n == "after-noise") return rot(1);
+        if (n == "twin-interleaved") return rot(2);
+        if (n == "shared-system") return rot(3);
+        return true;
+    };
 
     // ---- solo: the reference
     c.setPhase("solo: build");
@@ -154,7 +176,7 @@ static void checkCase(Ctx& c, long idx, Rng& r) {
 
     // ---- twice (heap and stack scribbled first)
     std::unique_ptr<Scen> sc1;
-    if (want("twice") || want("state-copy") || want("shared-system")) {
+    if (true) {
         c.setPhase("twice " + sc0->descr);
         scribble(cs.scrSeed);
         sc1 = buildScen(cs);
@@ -177,12 +199,14 @@ static void checkCase(Ctx& c, long idx, Rng& r) {
 
     // ---- noise alone (reference for the noise's own results), then S after it
     const size_t nSlots = ref.steps.size() + 3;
-    std::vector<uint64_t> noiseRef; std::vector<std::string> noiseNames;
+    std::vector<uint64_t> noiseRef; std::vector<std::string> noiseNames; std::unique_ptr<Noise> nzAlone;
     if (want("after-noise") || want("interleaved-noise")) {
         c.setPhase("noise alone");
-        Noise nz(cs.noiseSeed, cs.kn, (sc0->io.kind + 1 + (int)(idx % 7)) % IK_Count);
+        nzAlone.reset(new Noise(cs.noiseSeed, cs.kn, (sc0->io.kind + 1 + (int)(idx % 7)) % IK_Count, cs.geod));
+        Noise& nz = *nzAlone;
         for (size_t k = 0; k < nSlots; ++k) nz.slot();
         for (auto& ac : nz.acts) { noiseRef.push_back(ac->h.h); noiseNames.push_back(ac->nm); c.obs("noise-slices:" + ac->nm, ac->slices); }
+        if (nz.geod) c.require("geodesic:length-terminated-shot-depends-on-earlier-queries-on-the-same-geometry", nz.geod->anomaly.empty(), [&] { return Json::obj().set("what", nz.geod->anomaly); });
         if (want("after-noise")) {
             c.setPhase("after-noise " + sc0->descr);
             std::unique_ptr<Scen> sc2 = buildScen(cs);
@@ -193,7 +217,7 @@ static void checkCase(Ctx& c, long idx, Rng& r) {
     // ---- S interleaved step by step with the same noise
     if (want("interleaved-noise")) {
         c.setPhase("interleaved-noise " + sc0->descr);
-        Noise nz(cs.noiseSeed, cs.kn, (sc0->io.kind + 1 + (int)(idx % 7)) % IK_Count);
+        Noise nz(cs.noiseSeed, cs.kn, (sc0->io.kind + 1 + (int)(idx % 7)) % IK_Count, cs.geod);
         std::vector<std::string> before; size_t used = 0;
         std::unique_ptr<Scen> sc3 = buildScen(cs);
         nz.slot(); ++used; std::string pre = nz.last;
@@ -211,7 +235,15 @@ static void checkCase(Ctx& c, long idx, Rng& r) {
         if (same) {
             while (used < nSlots) { nz.slot(); ++used; }
             for (size_t k = 0; k < nz.acts.size(); ++k)
-                c.require("noise-perturbed:" + noiseNames[k], nz.acts[k]->h.h == noiseRef[k], [&] { return Json::obj().set("activity", noiseNames[k]).set("slices", nz.acts[k]->slices).set("interleaved_with", sc0->toJson()); });
+                c.require("noise-perturbed:" + noiseNames[k], nz.acts[k]->h.h == noiseRef[k], [&] {
+                    Json w = Json::obj().set("activity", noiseNames[k]).set("slices", nz.acts[k]->slices).set("interleaved_with", sc0->toJson());
+                    ActSim *x = dynamic_cast<ActSim*>(nz.acts[k].get()), *y = dynamic_cast<ActSim*>(nzAlone->acts[k].get());
+                    if (x && y) for (size_t i = 0; i < std::min(x->history.size(), y->history.size()); ++i) {
+                        std::string what; long d = firstDiff(y->history[i].second, x->history[i].second, what);
+                        if (d >= 0) { w.set("which_simulation_of_the_activity", (long)i).set("scenario", y->history[i].first).set("first_differing_step", d).set("differs_in", what)
+                                       .set("outcome_alone", y->history[i].second.outcome).set("outcome_interleaved", x->history[i].second.outcome); break; }
+                    }
+                    return w; });
         }
     }
     // ---- two separately built instances stepping alternately
@@ -260,14 +292,14 @@ static void checkThreaded(Ctx& c, long idx, Rng& r) {
     if (c.wantSample()) c.sample(Json::obj().set("case", idx).set("variant", variant).set("A", sa->toJson()).set("B", sb->toJson()));
     static const char* VN[] = {"threaded:different-scenarios", "threaded:same-scenario-twice", "threaded:scenario-next-to-noise"};
     std::vector<uint64_t> noiseRef; size_t nSlots = refA.steps.size() + 3;
-    if (variant == 2) { Noise nz(A.noiseSeed, A.kn, (sa->io.kind + 4) % IK_Count); for (size_t k = 0; k < nSlots; ++k) nz.slot(); for (auto& ac : nz.acts) noiseRef.push_back(ac->h.h); }
+    if (variant == 2) { Noise nz(A.noiseSeed, A.kn, (sa->io.kind + 4) % IK_Count, A.geod); for (size_t k = 0; k < nSlots; ++k) nz.slot(); for (auto& ac : nz.acts) noiseRef.push_back(ac->h.h); }
     c.setPhase(std::string(VN[variant]) + " A=" + sa->descr + " B=" + sb->descr);
     Traj tA, tB; std::vector<uint64_t> noiseGot; std::vector<std::string> noiseNames; std::string errA, errB; Gate gate;
     std::thread th1([&] { try { gate.arrive(2); std::unique_ptr<Scen> s = buildScen(A); Run rr(*s, s->s0); rr.runToEnd(); tA = rr.traj; } catch (const std::exception& e) { errA = e.what(); } });
     std::thread th2([&] {
         try {
             gate.arrive(2);
-            if (variant == 2) { Noise nz(A.noiseSeed, A.kn, (sa->io.kind + 4) % IK_Count); for (size_t k = 0; k < nSlots; ++k) nz.slot(); for (auto& ac : nz.acts) { noiseGot.push_back(ac->h.h); noiseNames.push_back(ac->nm); } }
+            if (variant == 2) { Noise nz(A.noiseSeed, A.kn, (sa->io.kind + 4) % IK_Count, A.geod); for (size_t k = 0; k < nSlots; ++k) nz.slot(); for (auto& ac : nz.acts) { noiseGot.push_back(ac->h.h); noiseNames.push_back(ac->nm); } }
             else { std::unique_ptr<Scen> s = buildScen(Bc); Run rr(*s, s->s0); rr.runToEnd(); tB = rr.traj; }
         } catch (const std::exception& e) { errB = e.what(); }
     });
